@@ -143,10 +143,20 @@ struct Extractor {
     F->getNameForDiagnostic(OS, PP, true);
     OS << "(";
     bool first = true;
-    for (auto *P : F->parameters()) {
-      if (!first) OS << ", ";
-      first = false;
-      OS << typeStr(P->getType());
+    // parameter types as they appear in the function *type* (top-level cv of by-value
+    // parameters dropped), so that a declaration and its definition get the same key
+    if (auto *FPT = F->getType()->getAs<FunctionProtoType>()) {
+      for (QualType PT : FPT->param_types()) {
+        if (!first) OS << ", ";
+        first = false;
+        OS << typeStr(PT.getUnqualifiedType());
+      }
+    } else {
+      for (auto *P : F->parameters()) {
+        if (!first) OS << ", ";
+        first = false;
+        OS << typeStr(P->getType());
+      }
     }
     OS << ")";
     if (auto *M = dyn_cast<CXXMethodDecl>(F))
